@@ -136,6 +136,43 @@ ArchiveUpdate(na) ==
     /\ res' = R("ok", 0)
     /\ UNCHANGED <<pop, best, evals, calls>>
 
+(* A user-written operator driven through the helper combinators `mutation()` / `selection()` / `replacement()`       *)
+(* (default bodies of Component::execute for the operator traits), possibly failing midway.  The operator writes    *)
+(* a.s into the solution it is handed; at individual a.i (0: never) it fails -- "user_mutation": AFTER it has       *)
+(* written, "user_mutation_v": BEFORE writing (it validates first).  What the statement fixes: an individual whose   *)
+(* solution was handed out for writing and written is unevaluated; one whose solution is what it was may keep its    *)
+(* value or lose it (the helper hands out every solution up front).  Whether a failing execution hands the           *)
+(* population back (res.v = 1) or loses it (res.v = 0, the pinned code) is not fixed by the statement.               *)
+UserMutOps == {"user_mutation", "user_mutation_v"}
+Written(a, j) == a.i = 0 \/ j < a.i \/ (j = a.i /\ a.op = "user_mutation")
+UserMutation(a, np) ==
+    /\ act' = a
+    /\ IF a.i = 0
+       THEN /\ np = [j \in Idx |-> Ind(a.s, NoObj)] /\ res' = R("ok", 0)
+       ELSE \/ np = <<>> /\ res' = R("err", 0)
+            \/ /\ Len(np) = Len(pop) /\ res' = R("err", 1)
+               /\ \A j \in Idx : IF Written(a, j) THEN np[j] = Ind(a.s, NoObj)
+                                  ELSE np[j].s = pop[j].s /\ np[j].o \in {NoObj, pop[j].o}
+    /\ pop' = np
+    /\ UNCHANGED <<best, arch, shownK, evals, calls>>
+UserMutCandidates(a) ==
+    IF a.i = 0 THEN {[j \in Idx |-> Ind(a.s, NoObj)]}
+    ELSE {<<>>} \cup {[j \in Idx |-> IF Written(a, j) THEN Ind(a.s, NoObj) ELSE Ind(pop[j].s, IF j \in keep THEN pop[j].o ELSE NoObj)] :
+                      keep \in SUBSET {j \in Idx : ~Written(a, j)}}
+
+(* A user-written selection (picks member a.i twice) through `selection()`, then a user-written replacement (keeps    *)
+(* parents followed by offspring) through `replacement()`; a.s = 0: both succeed, 1: the selection fails (nothing     *)
+(* was pushed), 2: the replacement fails after it has taken both populations (handed back or lost, as above).          *)
+UserSelectReplace(a, np) ==
+    /\ act' = a
+    /\ CASE a.s = 0 -> np = pop \o <<pop[a.i], pop[a.i]>> /\ res' = R("ok", 0)
+         [] a.s = 1 -> np = pop /\ res' = R("err", 1)
+         [] a.s = 2 -> \/ np = <<>> /\ res' = R("err", 0)
+                       \/ np \in {pop, pop \o <<pop[a.i], pop[a.i]>>} /\ res' = R("err", 1)
+    /\ pop' = np
+    /\ UNCHANGED <<best, arch, shownK, evals, calls>>
+UserSelCandidates(a) == {<<>>, pop, pop \o <<pop[a.i], pop[a.i]>>}
+
 Acts ==
   (IF Len(pop) < MaxPop
    THEN {A("new", 0, s) : s \in Sols} \cup {A("new_unevaluated", 0, s) : s \in Sols}
@@ -164,8 +201,12 @@ ArchCandidates ==
 
 MInit == /\ pop = <<>> /\ best = NoInd /\ arch = <<>> /\ shownK = <<>> /\ evals = 0 /\ calls = 0
          /\ act = A("init", 0, 0) /\ res = R("ok", 0)
+UserMutActs == {A(op, i, s) : op \in UserMutOps, i \in 0..Len(pop), s \in Sols}
+UserSelActs == IF Len(pop) + 2 <= MaxPop + 1 THEN {A("user_select_replace", i, s) : i \in Idx, s \in 0..2} ELSE {}
 MNext == \/ \E a \in Acts : Do(a)
          \/ (AllEvaluated /\ \E na \in ArchCandidates : ArchiveUpdate(na))
+         \/ \E a \in UserMutActs : \E np \in UserMutCandidates(a) : UserMutation(a, np)
+         \/ \E a \in UserSelActs : \E np \in UserSelCandidates(a) : UserSelectReplace(a, np)
 MSpec == MInit /\ [][MNext]_mvars
 
 ---------------------------------------------------------------------------
@@ -179,12 +220,19 @@ Fresh == \A x \in Everyone : x.o # NoObj => x.o = F[x.s]
 MutableAccessClears ==
   [][ /\ act'.op \in {"solution_mut", "solution_mut_peek"} => pop'[act'.i].o = NoObj
       /\ act'.op \in {"as_solutions_mut", "round_trip"} => \A j \in 1..Len(pop') : pop'[j].o = NoObj
-      /\ act'.op \in {"solution_mut", "as_solutions_mut"} => pop'[act'.i].s = act'.s ]_mvars
+      /\ act'.op \in {"solution_mut", "as_solutions_mut"} => pop'[act'.i].s = act'.s
+      \* a user-written mutation behind the `mutation()` helper, failing or not: whoever was written is unevaluated
+      /\ (act'.op \in UserMutOps /\ Len(pop') > 0) =>
+            /\ Len(pop') = Len(pop)
+            /\ \A j \in Idx : Written(act', j) => pop'[j] = Ind(act'.s, NoObj) ]_mvars
 \* C05: copying / reading keep solution and objective together and change nothing else
 CopyKeepsPair ==
   [][ /\ act'.op = "clone" => pop' = Append(pop, pop[act'.i])
       /\ act'.op = "clone_from" => pop'[act'.i] = pop[act'.s] /\ Len(pop') = Len(pop)
-      /\ act'.op = "as_solutions" => pop' = pop ]_mvars
+      /\ act'.op = "as_solutions" => pop' = pop
+      \* selecting and moving between populations through the helpers: every member is a (solution, objective) pair
+      \* that was there before
+      /\ act'.op = "user_select_replace" => \A j \in 1..Len(pop') : \E x \in Idx : pop'[j] = pop[x] ]_mvars
 
 \* C06: an evaluation step keeps order and solutions, evaluates everyone with f, counts exactly |pop|
 EvaluateExact ==
